@@ -297,20 +297,30 @@ def _surface_shapes(tier):
         # A3.7/A3.8: split at the u-degree (pinned tree: see DESIGN.md section 11)
         out.append(dict(b, rational=False, alg='alg2', orders='upto_pu'))
         out.append(dict(b, rational=False, alg='alg2', orders='above_pu'))
-    rat = [dict(pu=1, pv=1, mu=[], mv=[]), dict(pu=2, pv=1, mu=[], mv=[])]
+    # rational: the quotient derivatives grow fast with the order (w^(order+1) denominators in ~2*su*sv symbols)
+    rat = [dict(pu=1, pv=1, mu=[], mv=[], orders='all'), dict(pu=1, pv=1, mu=[1], mv=[], orders='all'),
+           dict(pu=2, pv=1, mu=[], mv=[], orders='le2')]
     if tier == 'thorough':
-        rat += [dict(pu=1, pv=1, mu=[1], mv=[]), dict(pu=1, pv=2, mu=[], mv=[]), dict(pu=2, pv=2, mu=[], mv=[])]
+        rat += [dict(pu=1, pv=2, mu=[], mv=[], orders='le3'), dict(pu=2, pv=1, mu=[], mv=[], orders='all', symnet=False),
+                dict(pu=2, pv=2, mu=[], mv=[], orders='le2'), dict(pu=2, pv=1, mu=[1], mv=[], orders='le2')]
     for b in rat:
-        out.append(dict(b, rational=True, alg='alg1', orders='all'))
+        out.append(dict(b, rational=True, alg='alg1'))
     return out
 
 
-def _surface_setup(ctx, pu, pv, mu, mv, rational):
+def _const_net(ctx, count, dim):
+    """control points with distinct constant coordinates in general position (used where the weights carry the
+    symbols: every identity under contract is linear in the control points)"""
+    return [[ctx.lit(Fraction((i + 2) * (i + 3 + d) % 11 + 3 * d + 1, 2 + (i + d) % 3)) for d in range(dim)]
+            for i in range(count)]
+
+
+def _surface_setup(ctx, pu, pv, mu, mv, rational, symnet=True):
     U, iu, su = shapes.make_kv(ctx, pu, mu, prefix='a')
     V, iv, sv = shapes.make_kv(ctx, pv, mv, prefix='b')
     u = shapes.param_in(ctx, 'u', U[0], U[-1])
     v = shapes.param_in(ctx, 'v', V[0], V[-1])
-    P = shapes.net(ctx, 'P', su * sv, 3)
+    P = shapes.net(ctx, 'P', su * sv, 3) if symnet else _const_net(ctx, su * sv, 3)
     W = shapes.weights(ctx, 'w', su * sv) if rational else None
     srf = shapes.build_surface(ctx, pu, pv, U, V, P, su, sv, W)
     Pw = shapes.homog(P, W)
@@ -325,6 +335,8 @@ def _orders(pu, pv, orders):
         return list(range(0, top + 1))
     if orders == 'upto_pu':
         return list(range(0, pu + 1))
+    if orders.startswith('le'):
+        return list(range(0, int(orders[2:]) + 1))
     return list(range(pu + 1, top + 1))
 
 
@@ -334,11 +346,11 @@ def _orders(pu, pv, orders):
                       'helpers.basis_function_all', 'helpers.surface_deriv_cpts', 'helpers.curve_deriv_cpts',
                       'linalg.binomial_coefficient'],
           quick=lambda: _surface_shapes('quick'), thorough=lambda: _surface_shapes('thorough'))
-def surface_derivs(ctx, pu, pv, mu, mv, rational, alg, orders):
+def surface_derivs(ctx, pu, pv, mu, mv, rational, alg, orders, symnet=True):
     """ensures for every requested order (0..max(pu,pv)+2, in the stated sub-range): the table has (order+1)^2 entries
     and SKL[k][l] == D^k_u D^l_v S(u,v) for k + l <= order (entries with k + l > order are unconstrained);
     zero above the degree for non-rational surfaces.  alg1 = A3.6 (+A4.4), alg2 = A3.7/A3.8 (SurfaceEvaluator2)."""
-    U, V, su, sv, u, v, P, W, Pw, srf = _surface_setup(ctx, pu, pv, mu, mv, rational)
+    U, V, su, sv, u, v, P, W, Pw, srf = _surface_setup(ctx, pu, pv, mu, mv, rational, symnet)
     if alg == 'alg2':
         srf.evaluator = ctx.geomdl('evaluators').SurfaceEvaluator2()
     olist = _orders(pu, pv, orders)
@@ -425,17 +437,20 @@ def _trim(U, k):
 @scenario('C02', fns=['helpers.curve_deriv_cpts'],
           quick=lambda: _basis_shapes('quick'), thorough=lambda: _basis_shapes('thorough'))
 def curve_deriv_cpts(ctx, p, mult):
-    """ensures PK[k] (k = 0..p, full range rs = (0, n-1)) are the control points of the k-th derivative curve:
-    the degree p-k B-spline on U[k:-k] with net PK[k][0..n-k-1] evaluates to D^k C(u); a sub-range call
-    rs = (span-p, span) returns the matching slice."""
+    """ensures PK[k] (full range rs = (0, n-1)) are the control points of the k-th derivative curve: the degree p-k
+    B-spline on U[k:-k] with net PK[k][0..n-k-1] evaluates to D^k C(u) -- for every k for which that curve exists
+    (k <= p + 1 - largest interior multiplicity: beyond it a basis function of the derivative curve has an empty
+    support and A3.3 divides 0 by 0); a sub-range call rs = (span-p, span), the one the evaluators make, is defined
+    for every order <= p and returns the matching slice."""
     U, inner, n = shapes.make_kv(ctx, p, mult)
     u = shapes.param_in(ctx, 'u', U[0], U[-1])
     P = shapes.net(ctx, 'P', n, 2)
     hp = ctx.geomdl('helpers')
     want = curve_oracle(ctx, p, U, P, u, False, p)
-    PK = hp.curve_deriv_cpts(2, p, list(U), [list(pt) for pt in P], rs=(0, n - 1), deriv_order=p)
-    ctx.check_true('levels', len(PK) == p + 1)
-    for k in range(p + 1):
+    dfull = min(p, p + 1 - max(list(mult) + [1]))
+    PK = hp.curve_deriv_cpts(2, p, list(U), [list(pt) for pt in P], rs=(0, n - 1), deriv_order=dfull)
+    ctx.check_true('levels', len(PK) == dfull + 1)
+    for k in range(dfull + 1):
         net_k = [PK[k][i] for i in range(n - k)]
         _eq_vec(ctx, 'PK[%d].evaluates_to_D%d' % (k, k), spec.curve_point(p - k, _trim(U, k), net_k, u), want[k])
     span = spec.span_spec(p, U, n, u)
@@ -443,8 +458,12 @@ def curve_deriv_cpts(ctx, p, mult):
         sub = hp.curve_deriv_cpts(2, p, list(U), [list(pt) for pt in P], rs=(span - p, span), deriv_order=d)
         ctx.check_true('sub.order=%d.levels' % d, len(sub) == d + 1)
         for k in range(d + 1):
+            net_k = [sub[k][i] for i in range(p - k + 1)]
+            loc = spec.curve_point(p - k, _trim(U, k)[span - p:span - p + 2 * (p - k) + 2], net_k, u)
+            _eq_vec(ctx, 'sub.order=%d.PK[%d].evaluates_to_D%d' % (d, k, k), loc, want[k])
             for i in range(p - k + 1):
-                _eq_vec(ctx, 'sub.order=%d.PK[%d][%d]' % (d, k, i), sub[k][i], PK[k][span - p + i])
+                if k <= dfull:
+                    _eq_vec(ctx, 'sub.order=%d.PK[%d][%d]=full' % (d, k, i), sub[k][i], PK[k][span - p + i])
 
 
 def _sdc_shapes(tier):
@@ -520,17 +539,20 @@ def hodograph_curve(ctx, p, mult):
 
 
 def _hodo_surface_shapes(tier):
-    out = [dict(pu=2, pv=2, mu=[], mv=[]), dict(pu=2, pv=2, mu=[1], mv=[1])]
+    out = [dict(pu=2, pv=2, mu=[], mv=[]), dict(pu=2, pv=2, mu=[1], mv=[1]), dict(pu=2, pv=2, mu=[2], mv=[])]
     if tier == 'thorough':
-        out += [dict(pu=2, pv=2, mu=[2], mv=[1]), dict(pu=3, pv=2, mu=[1], mv=[]), dict(pu=2, pv=3, mu=[1], mv=[1]),
-                dict(pu=3, pv=3, mu=[], mv=[1])]
+        out += [dict(pu=2, pv=2, mu=[1], mv=[2]), dict(pu=3, pv=2, mu=[1], mv=[]), dict(pu=2, pv=3, mu=[1], mv=[1]),
+                dict(pu=3, pv=3, mu=[], mv=[1]), dict(pu=3, pv=2, mu=[2], mv=[]), dict(pu=3, pv=3, mu=[3], mv=[])]
+    for b in out:
+        # an interior knot of full multiplicity (= degree, a C0 line) in either direction: still a valid surface
+        b['c0'] = any(m == b['pu'] for m in b['mu']) or any(m == b['pv'] for m in b['mv'])
     return out
 
 
 @scenario('C02', fns=['operations.derivative_surface', 'helpers.surface_deriv_cpts', 'BSpline.Surface.evaluate_single',
                       'BSpline.Surface.ctrlpts2d'],
           quick=lambda: _hodo_surface_shapes('quick'), thorough=lambda: _hodo_surface_shapes('thorough'))
-def hodograph_surface(ctx, pu, pv, mu, mv):
+def hodograph_surface(ctx, pu, pv, mu, mv, c0):
     """requires non-rational surface of degrees >= 2.  ensures the three derivative surfaces evaluate to
     D_u S, D_v S and D_u D_v S, with degrees and sizes reduced in the differentiated directions only."""
     U, V, su, sv, u, v, P, W, Pw, srf = _surface_setup(ctx, pu, pv, mu, mv, False)
